@@ -199,6 +199,16 @@ Fixpoint write_all (p : prog) (ps : list packet) : res unit :=
   | k :: r => rbind (lift p (write_packet (p_now p) k)) (fun '(b, _) p => write_all (add_out p b) r)
   end.
 
+(** add_expr after evaluation: what an expression statement does with its value *)
+Definition emit_val (p : prog) (v : val) : res unit :=
+  match v with
+  | VNil => ROk tt p
+  | VPkt k => rbind (update_time p (pkt_bit_time k)) (fun _ p => write_all p [k])
+  | VPktGen ks => rbind (advance_all p ks) (fun _ p => write_all p ks)
+  | VTimeJump ns => update_time p ns
+  | _ => ROk tt (add_warning p)
+  end.
+
 Definition add_stmt (p : prog) (s : stmt) : res unit :=
   match s with
   | SImport l name =>
@@ -226,14 +236,7 @@ Definition add_stmt (p : prog) (s : stmt) : res unit :=
         ROk tt {| p_now := p_now p; p_regs := (target, v) :: p_regs p; p_imports := p_imports p; p_heap := p_heap p; p_out := p_out p; p_loc := p_loc p; p_warnings := p_warnings p; p_trace := p_trace p |})
     end
   | SExpr e =>
-    rbind (eval p e) (fun v p =>
-    match v with
-    | VNil => ROk tt p
-    | VPkt k => rbind (update_time p (pkt_bit_time k)) (fun _ p => write_all p [k])
-    | VPktGen ks => rbind (advance_all p ks) (fun _ p => write_all p ks)
-    | VTimeJump ns => update_time p ns
-    | _ => ROk tt (add_warning p)
-    end)
+    rbind (eval p e) (fun v p => emit_val p v)
   end.
 
 Fixpoint add_stmts (p : prog) (ss : list stmt) : res unit :=
